@@ -70,60 +70,56 @@ def site_signature(case, hk) -> tuple:
 
 
 def select_for_miri(g: RunGroup, tier: str, seed: int):
+    """quick: 64 cases, thorough: 400.  First several cases for every unsafe-site class (so that class
+    coverage never depends on the cap), then the cheapest cases of every distinct unsafe-site signature,
+    shapes with negative later runs first.  Miri manages ~50-500 checked events/s per process."""
     hook = g.hooklog()
-    cases = [c for c in g.cases.values() if len(c.decl.variants) <= (28 if tier == "quick" else 300)]
-    if tier != "quick":
-        # thorough: up to 6 cases of every unsafe-site signature (small ones first, two large ones), capped:
-        # Miri manages ~50 checked events/s per process, so ~1000 cases is about half an hour on 16 cores
-        by_sig = {}
-        for c in cases:
-            by_sig.setdefault(site_signature(c, hook.get(c.id, {}).get("resolved")), []).append(c)
-        picks = []
-        for sig, lst in sorted(by_sig.items(), key=lambda kv: repr(kv[0])):
-            lst.sort(key=lambda c: (len(c.decl.variants), c.id))
-            small = [c for c in lst if len(c.decl.variants) <= 40]
-            k = seed % max(1, len(small) - 3) if len(small) > 4 else 0
-            picks.extend(small[k:k + 4])
-            picks.extend(lst[-2:] if len(lst) > 6 else [])
-        picks = list({c.id: c for c in picks}.values())[:640]
-        return sorted(picks, key=lambda c: -len(c.decl.variants))
-    # quick: the cheapest case of every distinct unsafe-site signature, rotated by the seed
+    quick = tier == "quick"
+    cap = 64 if quick else 400
+    per_class = 3 if quick else 12
+    per_sig = 1 if quick else 4
+    cases = [c for c in g.cases.values() if len(c.decl.variants) <= (28 if quick else 64)]
     by_sig = {}
     for c in cases:
-        sig = site_signature(c, hook.get(c.id, {}).get("resolved"))
-        by_sig.setdefault(sig, []).append(c)
+        by_sig.setdefault(site_signature(c, hook.get(c.id, {}).get("resolved")), []).append(c)
     cands = []
     for sig, lst in sorted(by_sig.items(), key=lambda kv: repr(kv[0])):
         lst.sort(key=lambda c: (len(c.decl.variants), c.id))
-        lst = lst[:6]
-        cands.append(lst[seed % len(lst)])
+        pool = lst[:6 * per_sig]
+        k = seed % len(pool)
+        cands.extend((pool[k:] + pool[:k])[:per_sig])
     every = {"try_from": 1, "TryFrom": 1, "next": 1, "next_back": 1, "from_str": 1, "FromStr": 1, "iter": 1, "range": 1,
              "zip": 1, "as_str": 1, "Display": 1, "Debug": 1, "IntoStr": 1}
 
     def classes(c):
         return set(site_classes(c, hook.get(c.id, {}).get("resolved"), every))
 
-    # first: three candidates for every unsafe-site class, so that the class coverage never depends on the cap
     picks, seen = [], set()
     all_classes = sorted(set().union(*[classes(c) for c in cands])) if cands else []
     for cl in all_classes:
         have = [c for c in cands if cl in classes(c)]
         have.sort(key=lambda c: (len(c.decl.variants), (c.id * 7 + seed) % 11))
-        for c in have[:3]:
+        for c in have[:per_class]:
             if c.id not in seen:
                 seen.add(c.id)
                 picks.append(c)
 
-    # then: shapes at type limits / negative runs first, up to the cap
     def interest(c):
         vals = c.decl.values()
         return (0 if (vals[0] < 0 and not c.decl.gapless()) else 1, len(vals), c.id)
     for c in sorted(cands, key=interest):
-        if len(picks) >= 64:
+        if len(picks) >= cap:
             break
         if c.id not in seen:
             seen.add(c.id)
             picks.append(c)
+    if not quick:
+        # a few large enums as well (index arithmetic beyond 8 bits)
+        big = sorted((c for c in g.cases.values() if 200 <= len(c.decl.variants) <= 300), key=lambda c: c.id)
+        for c in big[seed % 3::max(1, len(big) // 6)][:6]:
+            if c.id not in seen:
+                seen.add(c.id)
+                picks.append(c)
     return sorted(picks, key=lambda c: -len(c.decl.variants))
 
 
